@@ -11,12 +11,14 @@ Open Scope nat_scope.
     the AST they denote *)
 Inductive slit := LInt (z : Z) | LUint (z : Z) | LBool (b : bool) | LNull
 | LStr (tok : str) (s : str)          (* a string literal token and the string it denotes *)
-| LBytes (tok : str) (b : list N).    (* a bytes literal token and the bytes it denotes *)
+| LBytes (tok : str) (b : list N)     (* a bytes literal token and the bytes it denotes *)
+| LDbl (tok : str).                   (* a double literal token (its value is what the decoder makes of it) *)
 
 Inductive st :=
 | SId (x : str)
 | SLit (l : slit)                    (* a non-negative number, true / false, null, a string / bytes token *)
 | SNegLit (z : Z)                    (* a negative integer literal: the token pair  - DIGITS *)
+| SNegDbl (tok : str)                (* a negative double literal: the token pair  - FLOAT *)
 | SSel (a : st) (f : str)            (* a.f *)
 | SIdx (a i : st)                    (* a[i] *)
 | SMCall (a : st) (f : str) (args : list st)   (* a.f(args) *)
@@ -36,7 +38,7 @@ Inductive st :=
 Definition prec (t : st) : nat :=
   match t with
   | SId _ | SLit _ | SSel _ _ | SIdx _ _ | SMCall _ _ _ | SCall _ _ | SLst _ | SMap _ => 7
-  | SNot _ _ | SNeg _ _ | SNegLit _ => 6 | SMul _ _ _ => 5 | SAdd _ _ _ => 4 | SRel _ _ _ => 3
+  | SNot _ _ | SNeg _ _ | SNegLit _ | SNegDbl _ => 6 | SMul _ _ _ => 5 | SAdd _ _ _ => 4 | SRel _ _ _ => 3
   | SAnd _ _ => 2 | SOr _ _ => 1 | SCond _ _ _ => 0 | SParen _ => 7
   end.
 
@@ -49,11 +51,13 @@ Definition lit_tk (l : slit) : tk :=
   | LNull => TNull
   | LStr t _ => TString t
   | LBytes t _ => TBytes t
+  | LDbl t => TFloat t
   end.
 Definition lit_val (l : slit) : value :=
   match l with
   | LInt z => VInt z | LUint z => VUInt z | LBool b => VBool b | LNull => VNull
   | LStr _ s => VStr s | LBytes _ b => VBytes b
+  | LDbl t => match double_literal false t with Some d => VDbl d | None => VNull end
   end.
 
 Fixpoint raw (t : st) : list tk :=
@@ -67,6 +71,7 @@ Fixpoint raw (t : st) : list tk :=
   | SId x => [TIdent x]
   | SLit l => [lit_tk l]
   | SNegLit z => [TMinus; TInt (nat_digits (- z))]
+  | SNegDbl t => [TMinus; TFloat t]
   | SSel a f => at_ 7 a ++ [TDot; TIdent f]
   | SIdx a i => at_ 7 a ++ [TLBracket] ++ raw i ++ [TRBracket]
   | SMCall a f args => at_ 7 a ++ [TDot; TIdent f; TLParen] ++ commas args ++ [TRParen]
@@ -103,6 +108,7 @@ Fixpoint ast (t : st) : expr :=
   | SId x => EIdent x
   | SLit l => ELit (lit_val l)
   | SNegLit z => ELit (VInt z)
+  | SNegDbl t => ELit (match double_literal true t with Some d => VDbl d | None => VNull end)
   | SSel a f => ESelect (ast a) f false
   | SIdx a i => ECall $"_[_]" None [ast a; ast i]
   | SMCall a f args => ECall f (Some (ast a)) (many args)
@@ -129,6 +135,7 @@ Definition wf_lit (l : slit) : bool :=
   | LUint z => in_u64 z
   | LStr t s => match decode_string t with Some s' => str_eqb s' s | None => false end
   | LBytes t b => match decode_bytes t with Some b' => str_eqb b' b | None => false end
+  | LDbl t => match double_literal false t with Some _ => true | None => false end
   | _ => true
   end.
 Definition no_macro (f : str) (recv : bool) (n : nat) : bool :=
@@ -140,6 +147,7 @@ Fixpoint wf_st (t : st) : Prop :=
   | SId _ => True
   | SLit l => wf_lit l = true
   | SNegLit z => ((z <? 0)%Z && in_i64 z) = true
+  | SNegDbl t => double_literal true t <> None
   | SSel a _ => wf_st a
   | SIdx a i => wf_st a /\ wf_st i
   | SMCall a f args => no_macro f true (length args) = true /\ wf_st a /\ all args
@@ -165,6 +173,7 @@ Fixpoint wf_stb (t : st) : bool :=
   | SId _ => true
   | SLit l => wf_lit l
   | SNegLit z => (z <? 0)%Z && in_i64 z
+  | SNegDbl t => match double_literal true t with Some _ => true | None => false end
   | SSel a _ => wf_stb a
   | SIdx a i => wf_stb a && wf_stb i
   | SMCall a f args => no_macro f true (length args) && wf_stb a && all args
